@@ -4,6 +4,13 @@ import json, sys, os
 V = '/verif'
 CLAIMED = {
 
+ 'C08': ("exhaustive enumeration of malformed frames (every truncation, single-byte corruption, one-byte frame, upgrade byte) on the real server and client under the controlled scheduler + stateless DFS over disconnect points racing with teardown",
+         "Server side: for 5 valid request frames (call, ping, stream open/data/close) under all four header encodings every truncation and every single-byte corruption (6 values per position quick, all 255 thorough), every one-byte frame, 256 upgrade bytes on three method shapes (two-byte frames thorough), in ServeCodec plain/pipelining/direct I/O and poll(1,2 workers): no controlled thread panics, a well-formed probe on the same connection is answered unless the server closed it, a second connection is always served. Client side: the same mutations of 3 response frames with a call outstanding: no panic, at most one completion, the next call is served. Disconnects: bursts of 1-3 requests (optionally behind an open stream) followed by close/reset at every position, d<=2: no panic (the shim's WaitGroup reproduces the runtime's misuse panics), nothing executed twice, another connection is served.",
+         "panics are detected in controlled threads (a Go runtime fatal error from a data race is outside the model); threads left blocked by adversarial frames are recorded, not judged", "5 C08"),
+ 'C12': ("exhaustive enumeration of the configuration cross product on the real code under the controlled scheduler (fixed script, expected transcript) + one concurrent workload at d<=1",
+         "Header encoder {default,pb,code,json} x body codec {json,code,pb by name or constructor independently on each end; bytes, xml, msgp} x buffer sizes {64,4096,65536} x server modes (quick: each of poll/pipelining/direct I/O/context buffer/NoCopy alone and all together; thorough: all 32 combinations) x client modes (quick: each of direct I/O/pipelining/NoCopy alone and all together; thorough: all 8): the script (success, handler error, unknown method, with-context handler, ping, a message larger than every buffer, a stream exchange, success) yields exactly the expected transcript and handler execution counts in every configuration.",
+         "networks are replaced by the fake socket in this controlled part (real tcp/unix/http/ws/inproc/TLS are not exercised by this check); NoCopy is not combined with the aliasing BYTES codec", "5 C12"),
+
  'C07': ("exhaustive enumeration of boundary-value header cases against independent reference encoders (no sampling)",
          "Four encodings (built-in default path through the real client/server codecs, pb, code, json) x requests and responses x sequence numbers at every varint length boundary (0,1,2^7k-1,2^7k for k=1..9, 2^64-1) x upgrade field (absent, flag bytes, 2-byte) x method/error text lengths {0,1,127,128,129,16383,16384} (arbitrary bytes; valid UTF-8 with escapes under json) x body lengths {0,1,127,128,16383,16384} plus 2097151/2097152 crossed with one other field at a time x 6 scratch-buffer shapes (nil, needed-1, needed, needed+1, 64 KiB, holding a previous longer encoding): decode(encode(x)) == x, the bytes equal an independent reference encoder of the documented format (protobuf wire format tags 1-4 / 1-3 with omitted zero fields; varint-length-prefixed fields; JSON keys i,u,m,p,e,r parsed independently), reference bytes decode to the same fields, and all 32 upgrade flag combinations round-trip with the documented bit layout.",
          "finite boundary alphabets, not all 2^64 values; package-private upgrade type reached through an overlay-only hook file (harness/inject/rpc_hooks.go.txt)", "5 C07"),
